@@ -6,7 +6,7 @@ from .. import common as C
 from .. import simplerun as Q
 
 LEVEL = "proof"
-N = {"quick": 15000, "thorough": 400000}
+N = {"quick": 150000, "thorough": 400000}
 
 
 def numbers_of(d, acc):
